@@ -294,8 +294,66 @@ def param_provenance(body, t):
     return out
 
 
+def r08_9(ctx, run, rule='R08.9'):
+    """Every copy of the step loop (pop a position, select_path for containers) treats a scalar position the same way: it is
+    passed through unchanged when the step is the array wildcard [*] (lax mode) and dropped otherwise."""
+    f = ctx.facts
+    ad = f.adts.get('jsonpath::selector::Position', {})
+    vs = [v['name'] for v in ad.get('variants', [])]
+    if 'Scalar' not in vs:
+        run.undecided(rule, 'jsonpath::selector::Position', 'variants', 'Position::Scalar not found (anchor lost)')
+        return
+    cont_i = vs.index('Container')
+    copies = []
+    for p, b in sorted(f.bodies.items()):
+        if b.kind == 'Promoted' or not p.startswith('jsonpath::selector::') or '{closure' in p:
+            continue
+        if not any(called(callee_name(t), 'Selector::select_path') for _, t in b.calls()):
+            continue
+        loops = natural_loops(b)
+        if not loops:
+            continue
+        ex = Explorer(b, max_paths=6000)
+        has_pass = False
+        n = 0
+        for h in sorted(loops):
+            for q in ex.explore(start=h, stop=set(loops)):
+                popped = any(called(e[1], 'VecDeque::pop_front') for e in q.calls())
+                if not popped:
+                    continue
+                # the popped position is not a container on this path?
+                noncont = False
+                for c in q.conds:
+                    t = c[0]
+                    if t[0] == 'discr' and not is_call(t[1], 'VecDeque::pop_front') and any(is_call(s_, 'VecDeque::pop_front') for s_ in subterms(t[1])):
+                        if (c[1] == 'eq' and c[2] != cont_i) or (c[1] == 'ne' and cont_i in c[2]):
+                            noncont = True
+                if not noncont:
+                    continue
+                n += 1
+                wild = any(c[2] is True and c[0][0] == 'call' and canon(c[0][1]).split('::')[-1] == 'eq' and
+                           any(agg_variant(s_) and s_[1][2] == 'BracketWildcard' for s_ in subterms(c[0])) for c in q.conds)
+                pushed = any(called(e[1], 'VecDeque::push_back') for e in q.calls())
+                if wild and pushed:
+                    has_pass = True
+        copies.append((p, b, has_pass, n))
+    if len(copies) < 1:
+        run.undecided(rule, 'jsonpath::selector', 'step-loops', 'no step loop (pop a position, select_path) found: not decided')
+        return
+    for p, b, has_pass, n in copies:
+        loc = f'{b.file}:{b.line}'
+        if has_pass:
+            run.proved(rule, p, 'scalar-pass-through', 'a scalar position is re-queued when the step equals Path::BracketWildcard', loc)
+        elif any(hp for _, _, hp, _ in copies):
+            run.violation(rule, p, 'scalar-pass-through', 'this copy of the step loop never re-queues a scalar position for the [*] step, while '
+                          + ', '.join(x.split('::')[-1] for x, _, hp, _ in copies if hp) + ' does: `[*]` on a non-array passes the value through in the main path '
+                          'but yields nothing inside a comparison operand (or the reverse)', loc)
+        else:
+            run.undecided(rule, p, 'scalar-pass-through', 'no step loop re-queues scalar positions for [*]: the lax wildcard is implemented in a way this rule does not read', loc)
+
+
 def check(ctx, run):
-    run.rules_run = ['R08.1', 'R08.2', 'R08.3', 'R08.4', 'R08.5', 'R08.6', 'R08.7', 'R08.8']
+    run.rules_run = ['R08.1', 'R08.2', 'R08.3', 'R08.4', 'R08.5', 'R08.6', 'R08.7', 'R08.8', 'R08.9']
     cone = recursion.no_todo(ctx, run, 'R08.1', ROOTS, floor_roots=8)
     is_root = lambda body, base: deref_all(base)[0] in ('init',) and (body.name_of(deref_all(base)[1]) in ('root', 'input'))
     safety.panic_inventory(ctx, run, 'R08.2', ROOTS[:3], floor=15, trust_doc=is_root, only=lambda p: p.startswith('jsonpath::selector::'))
@@ -306,4 +364,5 @@ def check(ctx, run):
     r08_6(ctx, run)
     r08_7(ctx, run)
     recursion.rrec(ctx, run, 'R08.8', ROOTS[:3], {'path-expr', 'path-ast'}, 'recursion of the evaluator on the depth of the filter expression', floor=1)
+    r08_9(ctx, run)
     return report.finish(run, level='other', explanation=EXPLANATION, assumptions=["A1: the document is valid JSONB; slices of `root` are not panic obligations", "A2/A3"])
